@@ -531,8 +531,22 @@ func predicateLeaves(call *ssa.Call, known func(ssa.Value) bool, depth int) []ss
 // condition in the caller's terms (bUnknown if it is free). Unknown branch
 // conditions fork; the result is known only if all feasible returns agree.
 func predicate3(call *ssa.Call, leaf func(v ssa.Value) bool3, depth int) bool3 {
-	h := predicateCallee(call)
-	if h == nil || depth > 3 {
+	if predicateCallee(call) == nil {
+		return bUnknown
+	}
+	return predicate3Idx(call, 0, leaf, depth)
+}
+
+// predicate3Idx: the same for result idx of a helper with several results ("v, ok := lookUp(…)": ok is result 1).
+func predicate3Idx(call *ssa.Call, idx int, leaf func(v ssa.Value) bool3, depth int) bool3 {
+	h := call.Call.StaticCallee()
+	if h == nil || h.Blocks == nil || !strings.HasPrefix(fnPkgPath(h), repoMod) || isExportedFn(originOf(h)) || len(h.Blocks) > 40 {
+		return bUnknown
+	}
+	if rs := h.Signature.Results(); idx >= rs.Len() || !isBoolType(rs.At(idx).Type()) {
+		return bUnknown
+	}
+	if depth > 3 {
 		return bUnknown
 	}
 	var ev func(v ssa.Value, choice map[*ssa.Phi]ssa.Value, d int) bool3
@@ -614,7 +628,10 @@ func predicate3(call *ssa.Call, leaf func(v ssa.Value) bool3, depth int) bool3 {
 		}
 		switch last := b.Instrs[len(b.Instrs)-1].(type) {
 		case *ssa.Return:
-			switch ev(last.Results[0], choice, 0) {
+			if idx >= len(last.Results) {
+				return mU
+			}
+			switch ev(last.Results[idx], choice, 0) {
 			case bTrue:
 				return mT
 			case bFalse:
